@@ -51,6 +51,8 @@ structure CInv (rem : List Cb) (e0 : EvId) (s : KState ℚ σ) : Prop where
   bld_cnt : ∀ c L, (s.ev c).cbs = some L → ops s c ≠ [] → L.count (.build c) = 1
   rem_bld_own : ∀ c, Cb.build c ∈ rem → c = e0
   rem_bld_cnt : ∀ c, rem.count (.build c) ≤ 1
+  /-- the event whose callbacks are running exists and is processed -/
+  e0_done : rem ≠ [] → e0 < s.events.size ∧ (s.ev e0).cbs = none
   /-- `_count` plus the checks still to run = number of processed operand positions -/
   cnt : ∀ c, isCond s c = true → (s.ev c).out = none → ¬ Gone rem s c →
     (s.ev c).count + rem.count (.check c) = nProcessed s c
